@@ -212,21 +212,24 @@ end
 def getDiff (a b : Value.Members) : Value.Members := mergeSorted (getDiffM a b) (deletedM b a)
 
 mutual
-/-- `Marshal` of a dynamic value (HTML escaping on) -/
-def marshalAny : Value → Cst
+/-- `MarshalEscaped(v, esc)` of a dynamic value -/
+def marshalAnyE (esc : Bool) : Value → Cst
   | .null => litNull
   | .bool b => .lit (if b then ascii "true" else ascii "false")
   | .num l => .lit l
-  | .str s => .str (quoteBody true s)
-  | .arr xs => .arr (marshalAnyL xs)
-  | .obj ms => .obj (marshalAnyM ms)
-def marshalAnyL : List Value → List Cst
+  | .str s => .str (quoteBody esc s)
+  | .arr xs => .arr (marshalAnyEL esc xs)
+  | .obj ms => .obj (marshalAnyEM esc ms)
+def marshalAnyEL (esc : Bool) : List Value → List Cst
   | [] => []
-  | x :: xs => marshalAny x :: marshalAnyL xs
-def marshalAnyM : Value.Members → List (Bytes × Cst)
+  | x :: xs => marshalAnyE esc x :: marshalAnyEL esc xs
+def marshalAnyEM (esc : Bool) : Value.Members → List (Bytes × Cst)
   | [] => []
-  | (k, v) :: ms => (quoteBody true k, marshalAny v) :: marshalAnyM ms
+  | (k, v) :: ms => (quoteBody esc k, marshalAnyE esc v) :: marshalAnyEM esc ms
 end
+
+/-- `Marshal` (HTML escaping on) -/
+def marshalAny (v : Value) : Cst := marshalAnyE true v
 
 /-- `createObjectMergePatch` on two parsed texts (a `null` root reads as an empty map) -/
 def createObject (a b : Cst) : Outcome Value :=
